@@ -254,6 +254,12 @@ impl<'a, 'tcx> Cx<'a, 'tcx> {
                 }
             }
         }
+        if let mir::Const::Unevaluated(uv, _) = c.const_ {
+            if let Some(p) = uv.promoted {
+                // a promoted constant of this (or another) body: exported with the body it belongs to
+                o.push(("promoted", J::Arr(vec![J::Str(dp(tcx, uv.def)), J::Int(p.as_u32() as i128)])));
+            }
+        }
         o.push(("opaque", J::Str(with_no_trimmed_paths!(format!("{}", c.const_)))));
         J::Obj(o)
     }
@@ -532,6 +538,21 @@ fn export_body<'tcx>(tcx: TyCtxt<'tcx>, did: LocalDefId) -> Option<J> {
         blocks.push(cx.block(data));
     }
     o.push(("blocks", J::Arr(blocks)));
+    // promoted constants (`&Action::Accept`, `&[..]` literals ..): tiny straight-line bodies computing the constant
+    let mut proms = vec![];
+    for pb in tcx.promoted_mir(did.to_def_id()).iter() {
+        let pcx = Cx { tcx, body: pb, env };
+        let mut plocals = vec![];
+        for (_l, d) in pb.local_decls.iter_enumerated() {
+            plocals.push(J::Obj(vec![("ty", J::Str(ty_str(tcx, d.ty)))]));
+        }
+        let mut pblocks = vec![];
+        for (_b, data) in pb.basic_blocks.iter_enumerated() {
+            pblocks.push(pcx.block(data));
+        }
+        proms.push(J::Obj(vec![("locals", J::Arr(plocals)), ("blocks", J::Arr(pblocks))]));
+    }
+    o.push(("promoted", J::Arr(proms)));
     Some(J::Obj(o))
 }
 
